@@ -20,8 +20,9 @@ RULE = (
     " 3- and 4-body (and 2-body), an alignment choice (none / axis-angle / DPD 1-3), optional Breit-Wigner dynamics,"
     " Euler angles of the global rotation (incl. axis rotations and pi), an event seed (8 events) and a coupling seed."
     " The requirement is asserted for: one topology (any alignment), several topologies with spinless final state,"
-    " several topologies with a spin alignment. Two targeted families (weight 1/5 each): (01)2+(02)1 with one massive spin-1"
-    " final particle under axis-angle alignment; a single (01)(23) topology whose two resonances both carry spin. Non-trivial: rotation by >= 0.1 rad about x or y and a spin >= 1 resonance"
+    " several topologies with a spin alignment. Three targeted families: (01)2+(02)1 with one massive spin-1"
+    " final particle under axis-angle alignment; a single (01)(23) topology whose two resonances both carry spin; a single cascade ((ab)c)d with a spin-1/2 final"
+    " particle and spin >= 1 resonances (weight 1/7 each). Non-trivial: rotation by >= 0.1 rad about x or y and a spin >= 1 resonance"
     " or a spinful outer state. Distinct = descriptor hash."
 )
 ASSUMPTIONS = [
@@ -117,8 +118,30 @@ def strategy(tier):
         st.sampled_from([-1, -1, 0, 3]), st.permutations([0, 1, 2, 3]), _rotation(),
         st.integers(0, 2**31 - 1), st.integers(0, 2**31 - 1), st.booleans(),
     ).map(targeted4)
+    # third targeted family: ONE cascade topology ((ab)c)d with a spin-1/2 final particle, so that (depending on where
+    # the permutation puts it) a half-integer intermediate state decays into a further resonance with spin; the
+    # phases exp(-i lambda phi) of consecutive frames must then fit together (three-body decays never get there)
+    def cascade(args):
+        fermion_at, k_init, k1, k2, par, perm, rot, es, cs = args
+        finals = [{"s2": 1 if i == fermion_at else 0, "P": 1 if i % 2 else -1, "m": [0.938, 0.494, 0.135, 0.548][i], "latex": 0}
+                  for i in range(4)]
+        res = [{"k": k1, "P": par[0], "eps": 0.1, "width": 0.1}, {"k": k2, "P": par[1], "eps": 0.3, "width": 0.1}]
+        r = {
+            "formalism": "helicity", "n": 4, "mu": 0.3, "final": finals, "ident": [],
+            "initial": {"k": k_init, "P": 1, "eps": 0.3, "width": 0.0},
+            "topos": [{"idx": 0, "perm": list(perm), "res": res, "pc": [False, False, False]}],
+            "hel_init": 0, "hel_final": [0, 0, 0, 0], "max_transitions": 96,
+        }
+        return {"reaction": r, "spin1_budget": 1, "alignment": "none", "bw": False, "rotation": rot,
+                "event_seed": es, "coupling_seed": cs}
+
+    target_cascade = st.tuples(
+        st.integers(0, 3), st.integers(0, 1), st.integers(1, 1), st.integers(1, 1),
+        st.tuples(st.sampled_from([1, -1]), st.sampled_from([1, -1])), st.permutations([0, 1, 2, 3]), _rotation(),
+        st.integers(0, 2**31 - 1), st.integers(0, 2**31 - 1),
+    ).map(cascade)
     generic = rs.flatmap(with_config)
-    return st.one_of(generic, generic, generic, target, target4)
+    return st.one_of(generic, generic, generic, generic, target, target4, target_cascade)
 
 
 def rotation_matrix(spec):
